@@ -486,19 +486,29 @@ class DebuggedApplication:
         elif trust:
             auth = True
 
-        # If we failed too many times, then we're locked out.
-        elif self._failed_pin_auth.value > 10:
-            exhausted = True
-
         # Otherwise go through pin based authentication
         else:
             entered_pin = request.args["pin"]
+            matches = entered_pin.strip().replace("-", "") == pin.replace("-", "")
+            failed = False
 
-            if entered_pin.strip().replace("-", "") == pin.replace("-", ""):
-                self._failed_pin_auth.value = 0
-                auth = True
-            else:
-                self._fail_pin_auth()
+            # Check and update the counter in one step, so that concurrent
+            # attempts can't slip in between or have their update lost.
+            with self._failed_pin_auth.get_lock():
+                count = self._failed_pin_auth.value
+
+                # If we failed too many times, then we're locked out.
+                if count > 10:
+                    exhausted = True
+                elif matches:
+                    self._failed_pin_auth.value = 0
+                    auth = True
+                else:
+                    self._failed_pin_auth.value = count + 1
+                    failed = True
+
+            if failed:
+                time.sleep(5.0 if count > 5 else 0.5)
 
         rv = Response(
             json.dumps({"auth": auth, "exhausted": exhausted}),
